@@ -16,9 +16,10 @@ import (
 
 // Caller is one task calling Do.
 type Caller struct {
-	Delay int `json:"delay"` // yields before calling: later arrivals
-	Inner int `json:"inner"` // scheduling points inside this caller's function
-	Again int `json:"again"` // extra Do calls afterwards by the same task
+	Delay int  `json:"delay"`           // yields before calling: later arrivals
+	Inner int  `json:"inner"`           // scheduling points inside this caller's function
+	Again int  `json:"again"`           // extra Do calls afterwards by the same task
+	Panic bool `json:"panic,omitempty"` // fault: this caller's function panics instead of returning
 }
 
 // Scenario is a set of callers of one OnceN value.
@@ -61,6 +62,9 @@ func (H) Generate(r *simrt.Rand, tier string) any {
 		if r.Intn(4) == 0 {
 			c.Again = 1 + r.Intn(2)
 		}
+		if r.Intn(8) == 0 {
+			c.Panic = true
+		}
 		s.Callers = append(s.Callers, c)
 	}
 	return s
@@ -79,6 +83,11 @@ func (H) Shrink(sc any) []any {
 		out = append(out, c)
 	}
 	for i, cl := range s.Callers {
+		if cl.Panic {
+			c := &Scenario{N: s.N, Callers: append([]Caller(nil), s.Callers...)}
+			c.Callers[i].Panic = false
+			out = append(out, c)
+		}
 		if cl.Delay > 0 || cl.Inner > 0 || cl.Again > 0 {
 			c := &Scenario{N: s.N, Callers: append([]Caller(nil), s.Callers...)}
 			if cl.Delay > 0 {
@@ -94,10 +103,13 @@ func (H) Shrink(sc any) []any {
 	return out
 }
 
+type actionPanic struct{}
+
 type result struct {
-	done   bool
-	r      [3]int
-	effect int // value of the shared plain variable read right after Do returned
+	done     bool
+	panicked bool
+	r        [3]int
+	effect   int // value of the shared plain variable read right after Do returned
 }
 
 // Execute implements core.Harness.
@@ -129,19 +141,33 @@ func (H) Execute(scAny any, cfg simrt.Config, st *core.Stats) (*simrt.Outcome, *
 					for k := 0; k < c.Inner; k++ {
 						simrt.Yield()
 					}
+					if c.Panic {
+						simrt.Count("fault.action_panics", 1)
+						panic(actionPanic{})
+					}
 					effect = i + 1
 				}
 				for rep := 0; rep <= c.Again; rep++ {
 					simrt.Yield()
 					var res result
-					switch sc.N {
-					case 1:
-						res.r[0] = o1.Do(func() int { body(); return (i+1)*10 + 1 })
-					case 2:
-						res.r[0], res.r[1] = o2.Do(func() (int, int) { body(); return (i+1)*10 + 1, (i+1)*10 + 2 })
-					case 3:
-						res.r[0], res.r[1], res.r[2] = o3.Do(func() (int, int, int) { body(); return (i+1)*10 + 1, (i+1)*10 + 2, (i+1)*10 + 3 })
-					}
+					func() {
+						defer func() {
+							if p := recover(); p != nil {
+								if _, ours := p.(actionPanic); !ours {
+									panic(p)
+								}
+								res.panicked = true
+							}
+						}()
+						switch sc.N {
+						case 1:
+							res.r[0] = o1.Do(func() int { body(); return (i+1)*10 + 1 })
+						case 2:
+							res.r[0], res.r[1] = o2.Do(func() (int, int) { body(); return (i+1)*10 + 1, (i+1)*10 + 2 })
+						case 3:
+							res.r[0], res.r[1], res.r[2] = o3.Do(func() (int, int, int) { body(); return (i+1)*10 + 1, (i+1)*10 + 2, (i+1)*10 + 3 })
+						}
+					}()
 					res.effect = effect
 					res.done = true
 					results[i] = append(results[i], res)
@@ -170,8 +196,16 @@ func (H) Execute(scAny any, cfg simrt.Config, st *core.Stats) (*simrt.Outcome, *
 	if total != 1 {
 		return out, &core.Violation{Signature: "invocations!=1", Detail: fmt.Sprintf("%d function invocations in total (per caller: %v)", total, invoked)}
 	}
+	if sc.Callers[winner].Panic {
+		// the one invocation did not return: there are no values to share; what the
+		// statement still promises is that no second function is invoked (checked above)
+		return out, nil
+	}
 	for i, rs := range results {
 		for _, r := range rs {
+			if r.panicked {
+				return out, &core.Violation{Signature: "unexpected-panic", Detail: fmt.Sprintf("caller %d's Do panicked although the invoked function returned normally", i)}
+			}
 			for k := 0; k < sc.N; k++ {
 				if r.r[k] != (winner+1)*10+k+1 {
 					return out, &core.Violation{Signature: "wrong-results", Detail: fmt.Sprintf("caller %d got %v, the only invocation (caller %d's function) returned %d..", i, r.r[:sc.N], winner, (winner+1)*10+1)}
